@@ -147,7 +147,8 @@ def check_case(syms, ms, bs, acc, positions=None, before=None):
     if acc is not None:
         acc.evals += 1
         acc.transitions += len(s) + 1
-        acc.state((ms, bs, tuple((e - a, sum(s[a:e])) for a, e in got), len(s) - (got[-1][1] if got else 0)))
+        runs = [x for x in got if isinstance(x, tuple)]       # a segment that is not a run of the list is reported by the clauses; it has no span
+        acc.state((ms, bs, tuple((e - a, sum(s[a:e])) for a, e in runs), len(got) - len(runs), len(s) - (runs[-1][1] if runs else 0)))
         if eq or rejected or len(got) >= 2:
             acc.nontriv((ms, bs, tuple(syms)))
         acc.classes['segments=%d' % min(len(got), 3)] += 1
